@@ -154,6 +154,77 @@ func encodeLz(r *prng.Rng, fs []*lzField) []byte {
 	return out
 }
 
+// lzZeroKeyRecord is a record whose key carries field number 0, which no protobuf parser accepts: the key bytes
+// 0x00..0x07, now and then in a spelling that is not minimal (0x81 0x00, 0x85 0x80 0x00, ...), followed by a payload
+// of the announced wire type (so that the bytes after it are at a record boundary again) or by nothing.
+func lzZeroKeyRecord(r *prng.Rng) []byte {
+	wt := r.Intn(8)
+	k := []byte{byte(wt)}
+	if r.Chance(1, 4) {
+		k[0] |= 0x80
+		for i := r.Intn(3); i > 0; i-- {
+			k = append(k, 0x80)
+		}
+		k = append(k, 0x00)
+	}
+	if r.Chance(1, 4) {
+		return k
+	}
+	switch protowire.Type(wt) {
+	case protowire.VarintType:
+		k = protowire.AppendVarint(k, lzValue(r))
+	case protowire.Fixed64Type:
+		k = protowire.AppendFixed64(k, r.U64Interesting())
+	case protowire.BytesType:
+		k = protowire.AppendBytes(k, asciiBytes(r, []int{0, 1, 3, 9}[r.Intn(4)]))
+	case protowire.Fixed32Type:
+		k = protowire.AppendFixed32(k, uint32(r.U64Interesting()))
+	default:
+		k = append(k, r.Bytes(r.Intn(4))...)
+	}
+	return k
+}
+
+// lzSpliceRecord puts rec between two records of the well-formed message data: at a random record boundary of the
+// top level (start and end included) or, one time in three when there is one, at a record boundary inside the payload
+// of a length-delimited record (its length prefix is rewritten) - i.e. inside a nested message, a string or a packed run.
+func lzSpliceRecord(r *prng.Rng, data, rec []byte) []byte {
+	type span struct{ start, keyEnd, end int } // record = data[start:end], key = data[start:keyEnd]
+	walk := func(b []byte) (bounds []int, lens []span) {
+		off := 0
+		bounds = append(bounds, 0)
+		for off < len(b) {
+			_, typ, n := protowire.ConsumeTag(b[off:])
+			if n < 0 {
+				return bounds, lens
+			}
+			m := protowire.ConsumeFieldValue(1, typ, b[off+n:])
+			if m < 0 {
+				return bounds, lens
+			}
+			if typ == protowire.BytesType {
+				lens = append(lens, span{off, off + n, off + n + m})
+			}
+			off += n + m
+			bounds = append(bounds, off)
+		}
+		return bounds, lens
+	}
+	bounds, lens := walk(data)
+	if len(lens) > 0 && r.Chance(1, 3) {
+		sp := lens[r.Intn(len(lens))]
+		payload, _ := protowire.ConsumeBytes(data[sp.keyEnd:sp.end])
+		ib, _ := walk(payload)
+		at := ib[r.Intn(len(ib))]
+		inner := append(append(append([]byte{}, payload[:at]...), rec...), payload[at:]...)
+		out := append([]byte{}, data[:sp.keyEnd]...)
+		out = protowire.AppendBytes(out, inner)
+		return append(out, data[sp.end:]...)
+	}
+	at := bounds[r.Intn(len(bounds))]
+	return append(append(append([]byte{}, data[:at]...), rec...), data[at:]...)
+}
+
 func lzValue(r *prng.Rng) uint64 {
 	switch r.Intn(6) {
 	case 0:
@@ -187,6 +258,26 @@ func genLzDef(r *prng.Rng, fs []*lzField, depth int) *lzDef {
 			d.entries = append(d.entries, lzDefEntry{k, sub})
 		}
 	}
+	if r.Chance(1, 5) {
+		// "the first n fields of the message": exactly the consecutive field numbers 1..n, present in the message or not
+		// (the shape most real definitions have; the random subsets below hardly ever are one)
+		byTag := map[int]*lzField{}
+		for _, f := range fs {
+			byTag[f.tag] = f
+		}
+		for k, n := 1, 1+r.Intn(7); k <= n; k++ {
+			f := byTag[k]
+			switch {
+			case f != nil && f.kind == lzMsg && r.Chance(3, 4):
+				add(k, genLzDef(r, f.sub, depth+1))
+			case r.Chance(1, 8):
+				add(-k, nil)
+			default:
+				add(k, nil)
+			}
+		}
+		return d
+	}
 	for _, f := range fs {
 		if r.Chance(1, 4) {
 			continue // undeclared
@@ -209,6 +300,72 @@ func genLzDef(r *prng.Rng, fs []*lzField, depth int) *lzDef {
 		add(12, &lzDef{entries: []lzDefEntry{{1, nil}}})
 	}
 	return d
+}
+
+// lzDefLevels: how many message levels the definition descends (1 = the root message only, 2 = a nested
+// definition, 3 = root -> nested -> nested-in-nested, ...)
+func lzDefLevels(d *lzDef) int {
+	n := 1
+	for _, e := range d.entries {
+		if e.sub != nil && e.key > 0 {
+			if k := 1 + lzDefLevels(e.sub); k > n {
+				n = k
+			}
+		}
+	}
+	return n
+}
+
+// lzAllPaths: every request path of the definition tree - each declared key at each level, reached through the
+// nested definitions above it
+func lzAllPaths(d *lzDef) [][]int {
+	var out [][]int
+	for _, e := range d.entries {
+		out = append(out, []int{e.key})
+		if e.sub != nil && e.key > 0 {
+			for _, p := range lzAllPaths(e.sub) {
+				out = append(out, append([]int{e.key}, p...))
+			}
+		}
+	}
+	return out
+}
+
+// genLzDeepCase: a value tree and a definition that descends at least `levels` (2..4) message levels; the value tree
+// gets a chain of message-typed fields of that depth if the random one has none.
+func genLzDeepCase(r *prng.Rng, levels int) (fs []*lzField, def *lzDef) {
+	var chain func(fs []*lzField, depth int)
+	chain = func(fs []*lzField, depth int) {
+		if depth+1 >= levels || len(fs) == 0 {
+			return
+		}
+		var msgs []*lzField
+		for _, f := range fs {
+			if f.kind == lzMsg {
+				msgs = append(msgs, f)
+			}
+		}
+		var f *lzField
+		if len(msgs) > 0 {
+			f = msgs[r.Intn(len(msgs))]
+		} else {
+			f = fs[r.Intn(len(fs))]
+			f.kind, f.sub = lzMsg, genLzFields(r, depth+1)
+		}
+		if f.count == 0 {
+			f.count = 1
+		}
+		chain(f.sub, depth+1)
+	}
+	for try := 0; try < 40; try++ {
+		fs = genLzFields(r, 0)
+		chain(fs, 0)
+		def = genLzDef(r, fs, 0)
+		if lzDefLevels(def) >= levels {
+			break
+		}
+	}
+	return fs, def
 }
 
 func (d *lzDef) toDef() lazyproto.Def {
@@ -688,7 +845,7 @@ func genLzPath(r *prng.Rng, def *lzDef, fs []*lzField) []int {
 	d := def
 	for depth := 0; depth < 4; depth++ {
 		if d == nil || len(d.entries) == 0 || r.Chance(1, 12) {
-			path = append(path, 1+r.Intn(12))
+			path = append(path, r.Intn(13)) // 1..12 and, now and then, 0 (never declared: not a field number)
 			return path
 		}
 		e := d.entries[r.Intn(len(d.entries))]
